@@ -5,7 +5,7 @@ import N0Verif.Proofs.Ini
 # C17 — delimited list / key=value text decodes to what was encoded
 
 Only property statements live here; helper lemmas are in `Proofs/Esc.lean`, the model in
-`Model/Esc.lean` (it follows the code with fix patches C17-a … C17-e applied).
+`Model/Esc.lean` (it follows the code with fix patches C17-a … C17-e, C17-h, C17-i, C17-j applied).
 The INI part of the property (`parse_ini`, `load_ini`, `default_parse_value`, `split_pair`, `isnumber`,
 the lines `save_file` writes for a mapping) is modelled in `Model/Ini.lean` (code with fix patches
 C17-f and C17-g applied); its lemmas are in `Proofs/Ini.lean`.
@@ -15,32 +15,75 @@ open N0 N0.Py N0.Esc N0.Ini
 
 /-! ## `split_with_escape` -/
 
-/-- **Fuel adequacy.**  One unit of `while` fuel per piece of the plain split is enough (the
-driver and the theorems below use `fuelFor s = |s| + 2`), whatever recursion depth ≥ 1 is allowed:
-the loop ends and the answer does not depend on the fuel. -/
-theorem C17_fuel_adequate (depth fuel : Nat) (s d : Str) (m : Nat) (e : Char) (tr : Bool)
-    (hd : d ≠ []) (hf : (splitMax d m s).length ≤ fuel) :
-    splitWithEscapeD (depth + 1) fuel s d m (some e) tr = splitWithEscape s d m (some e) tr := by
+/-- **Fuel adequacy.**  More `while` fuel than the text has characters is enough (the driver and the
+theorems below use `fuelFor s = |s| + 2`): the loop ends and the answer does not depend on the fuel.
+(Every round but the last joins two items over one delimiter occurrence of the text.  Restated with fix
+C17-j: the function no longer calls itself, so the recursion depth is gone, and the bound is the length of
+the text instead of the number of pieces of `str.split(d, maxsplit)` — a re-split piece may be joined again.) -/
+theorem C17_fuel_adequate (fuel : Nat) (s d : Str) (m : Nat) (e : Char) (tr : Bool)
+    (hd : d ≠ []) (hf : s.length < fuel) :
+    splitWithEscapeD fuel s d m (some e) tr = splitWithEscape s d m (some e) tr := by
   unfold splitWithEscape
-  rw [splitWithEscapeD_spec depth fuel s d m e tr hd hf,
-    splitWithEscapeD_spec 1 (fuelFor s) s d m e tr hd
-      (by have := splitMax_length_le d m s; unfold fuelFor; omega)]
+  rw [splitWithEscapeD_ref fuel s d m e tr hd hf,
+    splitWithEscapeD_ref (fuelFor s) s d m e tr hd (by unfold fuelFor; omega)]
 
-/-- **General reference.**  For every text, non-empty delimiter, maxsplit, escape character and
-trim flag the result is the one-pass walk `specG` over the pieces of the plain split. -/
-theorem C17_general_spec (s d : Str) (m : Nat) (e : Char) (tr : Bool) (hd : d ≠ []) :
-    splitWithEscape s d m (some e) tr = .ok (specG e d tr [] (splitMax d m s)) :=
-  splitWithEscapeD_spec 1 (fuelFor s) s d m e tr hd
-    (by have := splitMax_length_le d m s; unfold fuelFor; omega)
+/-- the statement as the property reads: "with an escape character, a delimiter preceded by an odd run of
+escapes stays inside its item and the result never depends on neighbouring items (maxsplit included)" — the
+code IS the character-level reference `splitRef` (`Model/Esc.lean`: one pass, only REAL cuts are counted) -/
+def C17_split_maxsplit_real_cuts_stmt : Prop :=
+  ∀ (s d : Str) (m : Nat) (e : Char) (tr : Bool), d ≠ [] →
+    splitWithEscape s d m (some e) tr = splitRef s d m (some e) tr
 
-/-- **C17 (odd run stays).**  When the delimiter does not end with the escape character, the
+/-- **C17 (maxsplit counts real cuts; fix C17-j) — the full statement.**  For every text, non-empty
+delimiter (those that contain or end with the escape character included), maxsplit, escape character and
+trim flag `split_with_escape` returns what the one-pass reference returns: an escaped delimiter stays in
+its item and uses up no split, exactly `maxsplit` real cuts are made when the text has that many, and what
+follows the last one is the last item, raw.  Unbounded.  (Before the fix this was false: the statement had
+the counter-example theorem `C17_split_maxsplit_real_cuts_cex` and held only outside the class `escWithin`,
+`C17_split_real_cuts_partial`; both are replaced by this theorem.) -/
+theorem C17_split_maxsplit_real_cuts : C17_split_maxsplit_real_cuts_stmt := by
+  intro s d m e tr hd
+  unfold splitWithEscape
+  rw [splitWithEscapeD_ref (fuelFor s) s d m e tr hd (by unfold fuelFor; omega), splitRef, if_neg hd]
+
+/-- the same as an equation with the reference scan -/
+theorem C17_split_is_reference (s d : Str) (m : Nat) (e : Char) (tr : Bool) (hd : d ≠ []) :
+    splitWithEscape s d m (some e) tr = .ok (refAux e d tr (limOf m) 0 [] s) := by
+  rw [C17_split_maxsplit_real_cuts s d m e tr hd, splitRef, if_neg hd]
+
+/-- **General reference over the pieces of the plain split.**  For every text, non-empty delimiter, maxsplit,
+escape character and trim flag such that no escaped delimiter is met while real cuts are limited and still
+allowed (`escWithin` false — in particular always without maxsplit, `C17_general_spec_no_maxsplit`) the
+result is the one-pass walk `specG` over the pieces of `str.split(d, maxsplit)`.
+(Restated with fix C17-j: before the fix this held for EVERY maxsplit — that was the defect, an escaped
+delimiter used up one of the `maxsplit` pieces; inside the class the corrected general statement is
+`C17_split_maxsplit_real_cuts`.) -/
+theorem C17_general_spec (s d : Str) (m : Nat) (e : Char) (tr : Bool) (hd : d ≠ [])
+    (h : escWithin e d (limOf m) 0 [] s = false) :
+    splitWithEscape s d m (some e) tr = .ok (specG e d tr [] (splitMax d m s)) := by
+  rw [C17_split_is_reference s d m e tr hd, refAux_eq_specG e d tr s (limOf m) 0 [] h]
+  rfl
+
+theorem C17_general_spec_no_maxsplit (s d : Str) (e : Char) (tr : Bool) (hd : d ≠ []) :
+    splitWithEscape s d 0 (some e) tr = .ok (specG e d tr [] (splitMax d 0 s)) :=
+  C17_general_spec s d 0 e tr hd (escWithin_none e d s 0 [])
+
+/-- **C17 (odd run stays).**  When the delimiter does not end with the escape character (and outside the
+class above: without maxsplit, or no escaped delimiter among the real cuts allowed), the
 result is `splitSpec`: the delimiter after a piece stays inside the item exactly when that piece
 ends with an odd run of escapes (the last escape is dropped), otherwise the item is closed, its
-trailing run halved when trimming.  The decision looks at nothing but that piece. -/
+trailing run halved when trimming.  The decision looks at nothing but that piece.
+(Restated with fix C17-j like `C17_general_spec`; for every maxsplit the decision is that of the reference,
+`C17_split_maxsplit_real_cuts`.) -/
 theorem C17_odd_run_stays (s d : Str) (m : Nat) (e : Char) (tr : Bool) (hd : d ≠ [])
-    (hl : d.getLast? ≠ some e) :
+    (hl : d.getLast? ≠ some e) (h : escWithin e d (limOf m) 0 [] s = false) :
     splitWithEscape s d m (some e) tr = .ok (splitSpec e d tr [] (splitMax d m s)) := by
-  rw [C17_general_spec s d m e tr hd, specG_eq_splitSpec e d tr hd hl _ [] (run_nil e)]
+  rw [C17_general_spec s d m e tr hd h, specG_eq_splitSpec e d tr hd hl _ [] (run_nil e)]
+
+theorem C17_odd_run_stays_no_maxsplit (s d : Str) (e : Char) (tr : Bool) (hd : d ≠ [])
+    (hl : d.getLast? ≠ some e) :
+    splitWithEscape s d 0 (some e) tr = .ok (splitSpec e d tr [] (splitMax d 0 s)) :=
+  C17_odd_run_stays s d 0 e tr hd hl (escWithin_none e d s 0 [])
 
 /-- **C17 (independence of neighbours).**  A boundary after a piece with an even run cuts the
 computation in two: what comes before and what comes after are decoded independently. -/
@@ -56,7 +99,7 @@ theorem C17_total (s d : Str) (m : Nat) (esc : Option Char) (tr : Bool) (hd : d 
     ∃ r, splitWithEscape s d m esc tr = .ok r := by
   cases esc with
   | none => exact ⟨splitMax d m s, by simp [splitWithEscape, splitWithEscapeD, hd]⟩
-  | some e => exact ⟨_, C17_general_spec s d m e tr hd⟩
+  | some e => exact ⟨_, C17_split_is_reference s d m e tr hd⟩
 
 /-- **C17 (no escape = plain split).**  If the escape character does not occur in the text (or no
 escape character is given) the result is `str.split(delimiter, maxsplit)` — the `ValueError` for
@@ -69,7 +112,7 @@ theorem C17_no_escape_is_split (s d : Str) (m : Nat) (esc : Option Char) (tr : B
   · cases esc with
     | none => simp [splitWithEscape, splitWithEscapeD, pySplit, hd]
     | some e =>
-      rw [C17_general_spec s d m e tr hd, pySplit, if_neg hd]
+      rw [C17_general_spec s d m e tr hd (escWithin_no_escape e d s _ 0 [] (by simp) (h e rfl)), pySplit, if_neg hd]
       rw [specG_no_escape e d tr (splitMax d m s)
         (fun p hp hc => h e rfl (splitAux_mem d (limOf m) 0 s p hp e hc))]
 
@@ -683,81 +726,67 @@ theorem C17_list_none_cex :
     serializeDict [';'] ['='] (.dict .plain [(['a'], .list .plain [.none])]) = .error .TypeError := by
   decide
 
-/-- with escapes *and* maxsplit fewer parts than requested come back (the re-split guard
-`maxsplit+1 < len(...)` can never be true); the statement speaks of maxsplit only for escape-free
-text, where `C17_no_escape_is_split` applies -/
+/-- fixed finding C17-j: with escapes *and* maxsplit the requested number of real cuts is made (before the
+fix this text came back unsplit, `['a;b;c;d']`: the escaped delimiter had used up the only split) -/
 theorem C17_maxsplit_escape_example :
-    splitWithEscape "a\\;b;c;d".toList [';'] 1 (some '\\') true = .ok ["a;b;c;d".toList] := by
+    splitWithEscape "a\\;b;c;d".toList [';'] 1 (some '\\') true = .ok ["a;b".toList, "c;d".toList] := by
   decide
 
-/-! ## maxsplit counts real cuts — open finding C17-j
+/-! ## maxsplit counts real cuts — finding C17-j, fixed
 
 "With an escape character, a delimiter preceded by an odd run of escapes stays inside its item and
 the result never depends on neighbouring items … (maxsplit included)".  The reference `splitRef`
 (`Model/Esc.lean`) scans the characters once and counts only REAL cuts.  The code splits with
 `str.split(delimiter, maxsplit)` first, so an *escaped* delimiter among the first `maxsplit`
-occurrences uses up one split; the repair the code has for this case (`if maxsplit and maxsplit+1 <
-len(separated_items) and delimiter in separated_items[-1]`: re-split the remainder once) can never
-fire for `maxsplit ≥ 1` — the list has at most `maxsplit + 1` items.  Whether the boundary `c;d` is
-cut then depends on an escape in a NEIGHBOURING item. -/
+occurrences used up one split (the repair the code had for this case, `if maxsplit and maxsplit+1 <
+len(separated_items) and delimiter in separated_items[-1]`, could never fire).  Fix C17-j splits the raw
+remainder once more before every join; the full statement is the theorem `C17_split_maxsplit_real_cuts`
+(top of this file). -/
 
-/-- the statement as the property reads (kept visible; **false** on the pinned code:
-`C17_split_maxsplit_real_cuts_cex`) -/
-def C17_split_maxsplit_real_cuts_stmt : Prop :=
-  ∀ (s d : Str) (m : Nat) (e : Char) (tr : Bool), d ≠ [] →
-    splitWithEscape s d m (some e) tr = splitRef s d m (some e) tr
-
-/-- **C17-j (open).**  Smallest witness `'\\;;'`, maxsplit 1: one real cut is expected
-(`[';', '']`), the code returns the text unsplit (`[';;']`).  The same text without the escaped
-delimiter in the neighbouring item, `';'`, is cut.  The witnesses of the finding: `'a\\;b;c;d'` with
-maxsplit 2 gives `['a;b', 'c;d']` (two real cuts expected: `['a;b', 'c', 'd']`), with maxsplit 1
-`['a;b;c;d']` (expected `['a;b', 'c;d']`). -/
-theorem C17_split_maxsplit_real_cuts_cex :
-    splitWithEscape ['\\', ';', ';'] [';'] 1 (some '\\') true = .ok [[';', ';']] ∧
-    splitRef ['\\', ';', ';'] [';'] 1 (some '\\') true = .ok [[';'], []] ∧
+/-- **C17-j (fixed): the former witnesses.**  `'\;;'` with maxsplit 1 makes its one real cut (it came back
+unsplit), `'a\;b;c;d'` is cut twice with maxsplit 2 and once with maxsplit 1 (it was `['a;b', 'c;d']` and
+`['a;b;c;d']`): the boundary `c;d` no longer depends on the escape in the neighbouring item.  (Replaces
+`C17_split_maxsplit_real_cuts_cex`, which recorded the defect.) -/
+theorem C17_split_maxsplit_real_cuts_witnesses :
+    splitWithEscape ['\\', ';', ';'] [';'] 1 (some '\\') true = .ok [[';'], []] ∧
     splitWithEscape [';'] [';'] 1 (some '\\') true = .ok [[], []] ∧
     splitWithEscape ['a', '\\', ';', 'b', ';', 'c', ';', 'd'] [';'] 2 (some '\\') true
-      = .ok [['a', ';', 'b'], ['c', ';', 'd']] ∧
-    splitRef ['a', '\\', ';', 'b', ';', 'c', ';', 'd'] [';'] 2 (some '\\') true
       = .ok [['a', ';', 'b'], ['c'], ['d']] ∧
-    splitRef ['a', '\\', ';', 'b', ';', 'c', ';', 'd'] [';'] 1 (some '\\') true
+    splitWithEscape ['a', '\\', ';', 'b', ';', 'c', ';', 'd'] [';'] 1 (some '\\') true
       = .ok [['a', ';', 'b'], ['c', ';', 'd']] ∧
-    ¬ C17_split_maxsplit_real_cuts_stmt := by
-  refine ⟨by decide, by decide, by decide, by decide, by decide, by decide, ?_⟩
-  intro h
-  have := h ['\\', ';', ';'] [';'] 1 '\\' true (by decide)
-  revert this
-  decide
+    splitWithEscape ['a', '\\', ';', 'b', '\\', ';', 'c', ';', 'd', ';', 'e'] [';'] 2 (some '\\') true
+      = .ok [['a', ';', 'b', ';', 'c'], ['d'], ['e']] := by
+  refine ⟨by decide, by decide, by decide, by decide, by decide⟩
 
-/-- **Outside the class of C17-j the code IS the character-level reference** — for every text,
-non-empty delimiter (odd ones included), maxsplit, escape character and trim flag such that no
-escaped delimiter is met while real cuts are limited and still allowed (`escWithin`, decided by the
-same scan as the reference).  Unbounded; with `C17_split_maxsplit_real_cuts_cex` this locates the
-defect exactly in the class. -/
-theorem C17_split_real_cuts_partial (s d : Str) (m : Nat) (e : Char) (tr : Bool) (hd : d ≠ [])
-    (h : escWithin e d (limOf m) 0 [] s = false) :
-    splitWithEscape s d m (some e) tr = splitRef s d m (some e) tr := by
-  rw [C17_general_spec s d m e tr hd, splitRef, if_neg hd, refAux_eq_specG e d tr s (limOf m) 0 [] h]
-  rfl
-
-/-- without maxsplit (`None` / `0`) the class is empty: the code is the reference -/
+/-- without maxsplit (`None` / `0`): a corollary now -/
 theorem C17_split_real_cuts_no_maxsplit (s d : Str) (e : Char) (tr : Bool) (hd : d ≠ []) :
     splitWithEscape s d 0 (some e) tr = splitRef s d 0 (some e) tr :=
-  C17_split_real_cuts_partial s d 0 e tr hd (escWithin_none e d s 0 [])
+  C17_split_maxsplit_real_cuts s d 0 e tr hd
 
--- non-vacuity: a limited split outside the class (the escaped delimiter comes after the budget is used up /
--- no escape at all), and the witness of the finding inside it
+/-- inside the former class the result is NOT the walk over the pieces of `str.split(d, maxsplit)` any more
+(the hypothesis of `C17_general_spec` is needed) -/
+theorem C17_general_spec_needs_class :
+    splitWithEscape ['\\', ';', ';'] [';'] 1 (some '\\') true
+      ≠ .ok (specG '\\' [';'] true [] (splitMax [';'] 1 ['\\', ';', ';'])) := by
+  decide
+
+-- non-vacuity of the hypothesis of `C17_general_spec`: a limited split outside the class (the escaped delimiter comes
+-- after the budget is used up / no escape at all), and the witnesses of the fixed finding inside it
 example : escWithin '\\' [';'] (limOf 1) 0 [] ['a', ';', 'b', '\\', ';', 'c', ';', 'd'] = false := by decide
 example : escWithin '\\' [';'] (limOf 2) 0 [] ['a', ';', 'b', ';', 'c'] = false := by decide
 example : escWithin '\\' [';'] (limOf 1) 0 [] ['\\', ';', ';'] = true := by decide
 example : escWithin '\\' [';'] (limOf 2) 0 [] ['a', '\\', ';', 'b', ';', 'c', ';', 'd'] = true := by decide
 
--- outside the class of C17-j the code and the reference agree (no maxsplit; no escaped delimiter
--- among the first maxsplit delimiters; delimiter of two characters; escape-free text)
+-- the code and the reference (no maxsplit; no escaped delimiter among the first maxsplit delimiters; inside the
+-- former class; delimiter of two characters; escape-free text)
 example : splitWithEscape ['a', '\\', ';', 'b', ';', 'c', ';', 'd'] [';'] 0 (some '\\') true
     = splitRef ['a', '\\', ';', 'b', ';', 'c', ';', 'd'] [';'] 0 (some '\\') true := by decide
 example : splitWithEscape ['a', ';', 'b', '\\', ';', 'c', ';', 'd'] [';'] 1 (some '\\') true
     = splitRef ['a', ';', 'b', '\\', ';', 'c', ';', 'd'] [';'] 1 (some '\\') true := by decide
+example : splitWithEscape ['a', '\\', ';', 'b', ';', 'c', ';', 'd'] [';'] 2 (some '\\') false
+    = splitRef ['a', '\\', ';', 'b', ';', 'c', ';', 'd'] [';'] 2 (some '\\') false := by decide
+example : splitWithEscape ['a', '!', '!', ':', 'b', '!', ':', 'c', '!', ':', 'd'] ['!', ':'] 1 (some '!') true
+    = .ok [['a', '!', ':', 'b'], ['c', '!', ':', 'd']] := by decide
 example : splitRef ['a', '!', '!', ':', ':', 'b', '!', ':', ':', 'c'] [':', ':'] 0 (some '!') true
     = .ok [['a', '!'], ['b', ':', ':', 'c']] := by decide
 example : splitRef ['a', ';', 'b', ';', 'c'] [';'] 1 (some '\\') false = .ok [['a'], ['b', ';', 'c']] := by decide
